@@ -255,6 +255,13 @@ func c10Huge(b ref.Box, got []string, fl *Fails) {
 }
 
 func sweepC10(tier string, emit func(*CaseC10)) {
+	// very long lists for the two notation conversions (lengths that are not multiples of 8 / 64 / 4096)
+	for _, n := range []int{150000, 131081, 300007} {
+		if tier == "quick" && n == 300007 {
+			continue
+		}
+		emit(&CaseC10{HV: rowBoxes(n, 10, 10), Exp: ref.Box{H: 3, X: 1, Y: 2, V: 5, F: -7}})
+	}
 	if tier != "quick" {
 		// every vertical zoom difference up to 24 (16.7 million IDs, ~1.5 GB) and horizontal differences 11, 12
 		for _, d := range []int64{21, 22, 23, 24} {
